@@ -473,3 +473,39 @@ def default_is_none(check: Check, repo: Repo, funcs: list[ast.AST], rule: str = 
                     ok = (f"{p} is None", True) in facts or (f"{p} is not None", False) in facts
                     check.ob(rule, n, f"{fn.name}: {unparse(n)[:60]}", ok,  # type: ignore[attr-defined]
                              f"under `{p} is None`" if ok else f"`{p}` is replaced without an `is None` test: falsy arguments are lost")
+
+
+def parallel_stacks(check: Check, repo: Repo, classes: ClassIndex, rule: str = "PARALLEL-STACKS") -> None:
+    check.rule(
+        rule,
+        "TypeInfo keeps the input-type stack and the default-value stack in step at every value position "
+        "(argument, fragment_argument, list_value, object_field): each of these enter handlers pushes both "
+        "stacks on every path (list positions push Undefined = 'no default here'), so get_default_value() "
+        "never reports the default of an enclosing position for a nested value",
+    )
+    ci = classes.get("utilities.type_info", "TypeInfo")
+    methods = ci.methods()
+    aliases = ci.aliases()
+    for kind in ("argument", "fragment_argument", "list_value", "object_field"):
+        name = f"enter_{kind}"
+        while name in aliases:
+            name = aliases[name]
+        fn = methods.get(name)
+        if fn is None:
+            check.ob(rule, ci.node, f"enter_{kind}", False, "handler missing")
+            continue
+        cfg = CFG(fn)
+        sets = set()
+        for path in _paths(cfg):
+            pu = Counter()
+            for n in path:
+                if n.ast is not None and n.kind in ("stmt", "return"):
+                    a, _b, _s, _r = _stack_ops(n.ast)
+                    pu += a
+            sets.add(tuple(sorted(pu.items())))
+        ok = all(dict(s).get("_input_type_stack", 0) == 1 and dict(s).get("_default_value_stack", 0) == 1 for s in sets)
+        check.ob(rule, fn, f"enter_{kind} pushes input type and default value together", ok,
+                 f"pushes on every path: {sorted(sets)}")
+    gd = methods.get("get_default_value")
+    ok = gd is not None and any(isinstance(r, ast.Return) and "self._default_value_stack[-1]" in unparse(r) for r in walk_body(gd))
+    check.ob(rule, gd or ci.node, "get_default_value reads the top of the default-value stack", ok, "")
